@@ -344,6 +344,27 @@ def native_selection_cases():
                     except Exception as exc:
                         probs.append(f"limits={slim}: {type(exc).__name__}: {exc}"[:120])
                 yield {'name': f"native_selection|{what}|branch={br}|unit={unit or 'stored'}", 'ok': not probs, 'detail': '; '.join(probs[:2])}
+    # the limits handed over as a tuple, a list or a numpy array select the same points (point and model isotherms)
+    import pygaps.modelling as pgm
+    mi = pygaps.ModelIsotherm(model=pgm.get_isotherm_model('Langmuir', parameters={'K': 2.0, 'n_m': 5.0}, pressure_range=(0.5, 6.0), loading_range=(2.5, 4.6), rmse=0.0),
+                              material='pgv_c03', adsorbate='nitrogen', temperature=77.355, pressure_mode='absolute', pressure_unit='bar', loading_basis='molar',
+                              loading_unit='mmol', material_basis='mass', material_unit='g', temperature_unit='K')
+    for kind_, obj in (('point', iso), ('model', mi)):
+        for what in ('pressure', 'loading'):
+            lim = (2.5, 5.0) if (what == 'pressure' or kind_ == 'point') else (3.0, 4.4)
+            probs = []
+            try:
+                ref = numpy.asarray(getattr(obj, what)(limits=lim), dtype=float)
+                for fname, conv in (('list', list), ('array', numpy.asarray)):
+                    try:
+                        got = numpy.asarray(getattr(obj, what)(limits=conv(lim)), dtype=float)
+                        if got.shape != ref.shape or not numpy.allclose(got, ref, rtol=1e-12):
+                            probs.append(f"limits as {fname}: {got}, as tuple: {ref}")
+                    except Exception as exc:
+                        probs.append(f"limits as {fname}: {type(exc).__name__}: {exc}"[:120])
+            except Exception as exc:
+                probs.append(f"{type(exc).__name__}: {exc}"[:120])
+            yield {'name': f"native_selection|{what}|limits_as_list_or_array|{kind_}", 'ok': not probs, 'detail': '; '.join(probs[:2])}
 
 
 @replayer('c03.native_selection')
@@ -400,4 +421,61 @@ def _interpolation(spec, model):
     for r in interpolation_cases():
         if r['name'] == spec['name']:
             return {'confirmed': not r['ok'], 'observed': r['detail'], 'expected': 'data at measured points, straight line between, refusal outside, same as converted copy'}
+    return {'confirmed': False, 'error': 'case not found'}
+
+
+def query_form_cases():
+    """query points handed over in every documented form (a number, a Python list, a tuple, a numpy array, a pandas Series; whole
+    numbers as ints) and in a foreign unit, mode or basis: the answer is the one a permanently converted copy gives natively"""
+    import pandas
+    import pygaps
+    pygaps.logger.disabled = True
+    meta = dict(material='pgv_c03', adsorbate='nitrogen', temperature=77.355, loading_basis='molar', loading_unit='mmol', material_basis='mass', material_unit='g',
+                temperature_unit='K')
+    P, L, B = [0.1, 0.2, 0.4, 0.8, 0.7, 0.3], [1.0, 2.0, 4.0, 6.0, 5.8, 4.2], [0, 0, 0, 0, 1, 1]
+    stored = {'bar': pygaps.PointIsotherm(pressure=P, loading=L, branch=B, pressure_mode='absolute', pressure_unit='bar', **meta),
+              'relative%': pygaps.PointIsotherm(pressure=[10.0, 20.0, 40.0, 80.0, 70.0, 30.0], loading=L, branch=B, pressure_mode='relative%', pressure_unit=None, **meta)}
+    forms = {'list': list, 'tuple': tuple, 'array': numpy.asarray, 'series': pandas.Series}
+    queries = {
+        ('bar', 'loading_at', (('pressure_unit', 'kPa'),), 'ads'): ([15.0, 50.0], dict(unit_to='kPa'), None),
+        ('bar', 'loading_at', (('pressure_unit', 'kPa'),), 'des'): ([40.0, 60.0], dict(unit_to='kPa'), None),
+        ('relative%', 'loading_at', (('pressure_mode', 'relative'),), 'ads'): ([0.15, 0.5], dict(mode_to='relative'), None),
+        ('bar', 'pressure_at', (('loading_unit', 'mol'),), 'ads'): ([0.0015, 0.005], None, dict(unit_to='mol')),
+        ('bar', 'pressure_at', (('material_unit', 'kg'),), 'ads'): ([1500.0, 5000.0], None, 'material:kg'),
+        ('bar', 'loading_at', (('pressure_unit', 'Pa'),), 'ads'): ([15000, 50000], dict(unit_to='Pa'), None),  # whole numbers as ints
+    }
+    for (sk, meth, kw, br), (pts, pconv, lconv) in queries.items():
+        iso = stored[sk]
+        cp = _copy(iso)
+        if pconv:
+            cp.convert_pressure(**pconv)
+        if isinstance(lconv, dict):
+            cp.convert_loading(**lconv)
+        elif lconv == 'material:kg':
+            cp.convert_material(unit_to='kg')
+        want = numpy.asarray(getattr(cp, meth)(numpy.asarray(pts, dtype=float), branch=br), dtype=float)
+        # (the answer comes in the stored representation of the other quantity, which the copy still has)
+        probs = []
+        for fname, conv in forms.items():
+            try:
+                got = numpy.asarray(getattr(iso, meth)(conv(pts), branch=br, **dict(kw)), dtype=float).ravel()
+                if got.shape != want.shape or not numpy.allclose(got, want, rtol=1e-9, atol=0):
+                    probs.append(f"{fname}: {got[:4]}{' ...' if got.size > 4 else ''} ({got.size} values), converted copy {want}")
+            except Exception as exc:
+                probs.append(f"{fname}: {type(exc).__name__}: {exc}"[:120])
+        try:
+            one = numpy.asarray([float(numpy.asarray(getattr(iso, meth)(q, branch=br, **dict(kw)), dtype=float).ravel()[0]) for q in pts])
+            if not numpy.allclose(one, want, rtol=1e-9, atol=0):
+                probs.append(f"one number at a time: {one}, converted copy {want}")
+        except Exception as exc:
+            probs.append(f"one number at a time: {type(exc).__name__}: {exc}"[:120])
+        label = ','.join(f"{k}={v}" for k, v in kw)
+        yield {'name': f"query_form|{sk}|{meth}({label})|{br}|{'ints' if isinstance(pts[0], int) else 'floats'}", 'ok': not probs, 'detail': '; '.join(probs[:3])[:400]}
+
+
+@replayer('c03.query_form')
+def _query_form(spec, model):
+    for r in query_form_cases():
+        if r['name'] == spec['name']:
+            return {'confirmed': not r['ok'], 'observed': r['detail'], 'expected': 'the values a permanently converted copy gives natively, for every form of the argument'}
     return {'confirmed': False, 'error': 'case not found'}
